@@ -94,6 +94,7 @@ func main() {
 			fmt.Printf("mutant: %v\n", err)
 			os.Exit(3) // inapplicable
 		}
+		activeOverlay = overlay
 	}
 	exit := 0
 	func() {
